@@ -478,6 +478,91 @@ class Streams2(Streams):
                 self.disagree("convert_prelu", f"dtype,kind,C,alpha,alpha zp,scaling equal={desc}: model '{m}', real '{real}'",
                               {"stream": "prelu", "case": desc, "request": rq, "semantic_request": (sq or "")[:3000]}, sm)
 
+    # ---- 12. RESIZE as 2x upscalings and one average pool -----------------------------------------------------
+    def stream_resize(self, n):
+        from ethosu.vela import tflite_graph_optimiser as go
+        from ethosu.vela.data_type import DataType
+        from ethosu.vela.ethos_u55_regs.ethos_u55_regs import resampling_mode
+        from ethosu.vela.operation import Op, Padding
+        from ethosu.vela.tensor import create_const_tensor
+
+        ck, rng = self.ck, self.rng
+        rows = []
+        for i in range(n):
+            bilinear = rng.random() < 0.5
+            align = rng.random() < 0.4
+            half = (not bilinear) and (not align) and rng.random() < 0.4
+            nlog = rng.choice([1, 1, 2, 3])
+            k = 2 ** nlog
+            H, W = rng.randint(2, 5), rng.randint(2, 5)
+            C = rng.choice([1, 3])
+            OH, OW = ((H - 1) * k + 1, (W - 1) * k + 1) if align else (H * k, W * k)
+            ifm = self.tens([1, H, W, C], DataType.int8, 0.05, 3, "ifm")
+            ofm = self.tens([1, OH, OW, C], DataType.int8, 0.05, 3, "ofm")
+            size_t = create_const_tensor("size", [2], DataType.int32, [OH, OW])
+            attrs = {"align_corners": align, "half_pixel_centers": half, "upscale_factor": k}
+            op = self.testutil.create_op(Op.ResizeBilinear if bilinear else Op.ResizeNearestNeighbor, [ifm, size_t], ofm, attrs)
+            op.run_on_npu = True
+            sem = None
+            try:
+                go.convert_resize_to_upscale_and_average_pool(op)
+                chain, cur = [], ofm.ops[0]
+                while True:
+                    chain.append(cur)
+                    if cur.inputs[0] is ifm or not cur.inputs[0].ops:
+                        break
+                    cur = cur.inputs[0].ops[0]
+                chain.reverse()
+                ok_struct = chain[0].inputs[0] is ifm and all(c.ifm_resampling_mode == resampling_mode.NEAREST for c in chain)
+                shapes = [tuple(c.outputs[0].shape[1:3]) for c in chain[:-1]]
+                for c in chain[:-1]:
+                    if c.type not in (Op.ResizeBilinear, Op.ResizeNearestNeighbor) or tuple(c.attrs["ksize"][1:3]) != (1, 1):
+                        ok_struct = False
+                last = chain[-1]
+                dww, mode, pads = "-", "c", (0, 0, 0, 0)
+                if last.type == Op.DepthwiseConv2DBias:
+                    wv = np.asarray(last.inputs[1].values)
+                    kk = int(wv.shape[0])
+                    flat = wv[:, :, 0, 0].reshape(-1)
+                    ones = [j for j, v in enumerate(flat) if v == 1]
+                    same_all = all(np.array_equal(wv[:, :, 0, ch], wv[:, :, 0, 0]) for ch in range(wv.shape[3]))
+                    lastd = f"dwselect:{kk}:{ones[0]}" if len(ones) == 1 and int(np.abs(flat).sum()) == 1 and same_all else f"?weights{list(flat)}"
+                    dww, mode = csv(flat), "v"
+                    if last.attrs["padding"] != Padding.VALID:
+                        ok_struct = False
+                else:
+                    kk = int(last.attrs["ksize"][1])
+                    if tuple(last.attrs["ksize"][1:3]) != (kk, kk):
+                        ok_struct = False
+                    if kk == 1:
+                        lastd = "copy"
+                    elif last.attrs["padding"] == Padding.VALID:
+                        lastd, mode = f"avgvalid:{kk}", "v"
+                    elif last.attrs["padding"] == Padding.EXPLICIT:
+                        pads = tuple(int(v) for v in last.attrs["explicit_padding"])
+                        lastd, mode = (f"avgpadded:{kk}" if pads == (0, 0, kk - 1, kk - 1) else f"?pads{pads}"), "e"
+                    else:
+                        lastd = "?padding"
+                real = f"ok {len(chain)} " + (",".join(f"{a}:{b}" for a, b in shapes) if shapes else "-") + " " + lastd
+                if not ok_struct:
+                    real = "?structure " + real
+                sem = (f"rwsem2_resize {'b' if bilinear else 'n'} {int(align)} {int(half)} {H} {W} {len(chain)} {kk} {mode} "
+                       f"{pads[0]} {pads[1]} {pads[2]} {pads[3]} {dww} {rng.getrandbits(16)}")
+            except Exception as e:  # noqa: B902
+                real = "raises:" + type(e).__name__ + ":" + str(e)[:50]
+            rows.append((("bilinear" if bilinear else "nearest", align, half, H, W, C, k), f"rw2_resize {int(bilinear)} {int(align)} {H} {W} {nlog}", real, sem))
+        outs = self.model([r[1] for r in rows])
+        sem_outs = iter(self.model([r[3] for r in rows if r[3] is not None]))
+        for (desc, rq, real, sq), m in zip(rows, outs):
+            self.evaluations += 1
+            sm = next(sem_outs) if sq is not None else "no-semantic-request"
+            ck.count("rw2_resize_cases")
+            ck.count("rw2_resize_" + m.split()[-1].split(":")[0])
+            self.nontrivial.add(("resize",) + desc)
+            if m != real or sm.startswith("fail") or sm.startswith("err"):
+                self.disagree("convert_resize_to_upscale_and_average_pool", f"kind,align_corners,half_pixel,H,W,C,factor={desc}: model '{m}', real '{real}'",
+                              {"stream": "resize", "case": desc, "request": rq, "semantic_request": sq}, sm)
+
     # ---- driver ------------------------------------------------------------------------------------
     def run(self):
         t = self.ck.thorough
@@ -486,6 +571,7 @@ class Streams2(Streams):
         self.stream_mean(2000 if t else 400)
         self.stream_slice(4000 if t else 800)
         self.stream_prelu(2000 if t else 400)
+        self.stream_resize(1000 if t else 200)
 
 
 def run(ck, base=None):
